@@ -52,6 +52,9 @@ def build_phase(need_gen=False):
     return c
 
 
+HUNG = []      # driver invocations of this run that did not terminate: (program, case file, timeout, lines printed)
+
+
 def run_driver(exe, text, tag, timeout=600, extra_args=(), pre_args=()):
     d = os.path.join(BUILD, 'cases')
     os.makedirs(d, exist_ok=True)
@@ -61,9 +64,19 @@ def run_driver(exe, text, tag, timeout=600, extra_args=(), pre_args=()):
     cmd = [exe] + list(pre_args) + [p] + list(extra_args)
     if os.path.dirname(exe).endswith('ocaml'):      # extracted list functions are not tail-recursive
         cmd = ['bash', '-c', 'ulimit -s unlimited 2>/dev/null || ulimit -s 1000000; exec "$0" "$@"', exe, p] + list(extra_args)
+    if HUNG:
+        # a driver has already failed to terminate in this run: do not wait for the next hang, the verdict is settled
+        os.remove(p)
+        return 124, [], 'not run: an earlier driver invocation of this check did not terminate'
     rc, out, err = sh(cmd, timeout=timeout,
                       env={'ASAN_OPTIONS': 'detect_leaks=1:abort_on_error=0:allocator_may_return_null=1',
                            'UBSAN_OPTIONS': 'print_stacktrace=1', 'TSAN_OPTIONS': 'halt_on_error=0:exitcode=66'})
+    if rc == 124 and 'TIMEOUT after' in err:
+        keep = os.path.join(BUILD, 'replay', 'hang-%s-%d.txt' % (tag, os.getpid()))
+        os.makedirs(os.path.dirname(keep), exist_ok=True)
+        os.replace(p, keep)
+        HUNG.append((' '.join(cmd[:1] + list(pre_args)) if not os.path.dirname(exe).endswith('ocaml') else exe, keep, timeout, len(out.splitlines())))
+        return rc, out.splitlines(), err
     os.remove(p)
     return rc, out.splitlines(), err
 
@@ -80,16 +93,17 @@ def leaf_tie(run, ctx, seed, scale, be=False):
         if e:
             return {'cases': 0, 'disagreements': 1, 'replay': run.replay('leaf_be_build.txt', e)}
     rc1, c_out, c_err = run_driver(leaf_c, text, 'leaf')
-    rc2, m_out, m_err = run_driver(ctx.leaf_model, text, 'leafm', extra_args=['be'] if be else [])
+    rc2, m_out, m_err = run_driver(ctx.leaf_model, text, 'leafm', extra_args=['be'] if be else [], timeout=240)
     bad = common.diff_lines(c_out, m_out)
     info = {'cases': len(cases), 'disagreements': len(bad)}
-    if rc1 != 0 or bad:
-        i = bad[0] if bad else len(c_out)
+    if rc1 != 0 or rc2 != 0 or bad:
+        i = bad[0] if bad else min(len(c_out), len(m_out))
         rp = run.replay('leaf_tie.txt',
                         'leaf tie (translation validation) disagrees\ncase: %s\nC     : %s\nmodel : %s\nstderr: %s\n'
                         'replay: write the case line to a file F and run build/c/leaf_driver-* F and build/ocaml/leaf_model F\n'
                         % (cases[i] if i < len(cases) else '?', c_out[i] if i < len(c_out) else '<crash>',
-                           m_out[i] if i < len(m_out) else '<missing>', c_err[-1500:]))
+                           m_out[i] if i < len(m_out) else '<missing: the extracted model did not get this far (exit %d)>' % rc2,
+                           (c_err[-1500:] + m_err[-600:])))
         info['replay'] = rp
         info['first'] = cases[i] if i < len(cases) else '?'
     return info
@@ -233,6 +247,14 @@ def gate_and_ties(run, ctx, pid, seed, tier, need_leaf=True):
 
 def conclude(run, gate, obl):
     """if the proof gate is broken and no concrete failing input was found, report no-failing-input-found"""
+    if HUNG and not run.violations:
+        prog, casefile, tmo, nl = HUNG[0]
+        rp = run.replay('hang.txt', 'a driver did not terminate within %d s (it had printed %d result lines): %s\n'
+                                    'case file kept at %s: run the program on it; the first case it does not answer is the failing input\n'
+                                    '(the extracted model runs the Gallina regenerated from the current C sources: a change that makes a loop of the C code run '
+                                    'away shows up on both sides)\n--- head of the case file\n%s\n'
+                        % (tmo, nl, prog, casefile, open(casefile).read()[:3000] if os.path.exists(casefile) else ''))
+        run.violation(rp, False)
     if run.proof_broken and not run.violations:
         run.violation(run.proof_broken, True)
     elif run.proof_broken:
